@@ -734,6 +734,9 @@ func Logf(format string, args ...any) {
 
 func (s *Sched) Logs() []string { return s.logs }
 
+// LogOn reports whether the run keeps a log.
+func (s *Sched) LogOn() bool { return s.cfg.LogLimit > 0 }
+
 // Note folds a value into the run's determinism hash.
 func (s *Sched) Note(v uint64) {
 	s.hash = (s.hash ^ v) * 1099511628211
